@@ -444,6 +444,27 @@ def run_scaling(acc, spec):
             best = dt if best is None else min(best, dt)
         return best
 
+    # first a probe of the same shape at 200 and 1000 bytes in a child process with a CPU-time limit: a
+    # parser that needs more than 60 s of CPU for 1 kB does not terminate in any useful sense (an
+    # exponential regular expression); the limit is CPU seconds of the child, not wall-clock time
+    import subprocess
+    import sys as _sys
+
+    code = ("import resource,sys; resource.setrlimit(resource.RLIMIT_CPU,(60,65)); "
+            "from vf import core; core.use_waitress(); from vf.checks import c06; "
+            "name, make = c06.SCALING_SHAPES[%d]; h = c06.harness(%r); "
+            "[h.run_recorded([make(n)]) for n in (200, 1000)]; print('probe-ok')" % (spec["shape"], cfg))
+    pr = subprocess.run([_sys.executable, "-c", code], cwd=core.ROOT, stdout=subprocess.PIPE, stderr=subprocess.PIPE,
+                        env=dict(__import__("os").environ, PYTHONHASHSEED="0", PYTHONDONTWRITEBYTECODE="1"))
+    acc.evaluations += 1
+    if b"probe-ok" not in pr.stdout:
+        if pr.returncode < 0:
+            acc.violation("parsing-does-not-terminate:" + name,
+                          f"parsing a {name} input of at most 1000 bytes used more than 60 s of CPU (child ended by signal {-pr.returncode})",
+                          {"shape": name, "sizes": [200, 1000]})
+        else:
+            acc.inconclusive.append("harness: scaling probe child failed: " + pr.stderr.decode("utf-8", "replace")[-300:])
+        return
     t1 = cost(sizes[0])
     t4 = cost(sizes[1])
     acc.evaluations += 2
